@@ -86,6 +86,7 @@ Definition RNum : Num := {|
   neg := Ropp;
   nabs := Rabs;
   div := R_div;
+  same := Reqb;
   eqb := Reqb;
   ltb := Rltb;
   leb := Rleb;
